@@ -100,11 +100,23 @@ class FitInfoFile(object):
                 yield info.copy()
 
 
+def _same_extinction_law(law1, law2):
+    # Extinction instances do not define equality, so two laws read from the
+    # same file (or unpickled twice) would only compare equal by identity
+    if law1 is law2:
+        return True
+    if law1 is None or law2 is None:
+        return False
+    return (law1.wav.shape == law2.wav.shape and
+            bool(np.all(law1.wav == law2.wav)) and
+            bool(np.all(law1.chi == law2.chi)))
+
+
 class FitInfoMeta(object):
     def __eq__(self, other):
         return (self.model_dir == other.model_dir and
                 self.filters == other.filters and
-                self.extinction_law == other.extinction_law)
+                _same_extinction_law(self.extinction_law, other.extinction_law))
 
 
 class FitInfo(object):
